@@ -102,7 +102,8 @@ def run_task(task):
     if mode == "enum_points":
         item = mod.enum_item(task["item_seed"])
         out = mod.enum_points(item, task["which"], task["ks"], task["ref"])
-        out.update({"status": "enum", "item_seed": task["item_seed"], "which": task["which"], "string": item["multi"]})
+        out.update({"status": "enum", "item_seed": task["item_seed"], "which": task["which"],
+                    "string": item["multi"] if "multi" in item else item["cfg"]["string"]})
         if out["failures"]:
             first = out["failures"][0]
             out["replay"] = {"property": prop, "class": violation_class(first["violations"][0], prop),
